@@ -99,6 +99,8 @@ def bounds_rules(fb, R, classes):
             for (acc, cont, idx) in U.vector_accesses(fb, fn):
                 cn = U.scn(fn, cont)
                 if cn is not None and cn.get('k') == 'call' and cn.get('op') == '[]':
+                    if cls != FLEX:
+                        R.broken('%s: nested element access %s outside FlexMem (no tiling rule for it)' % (fn.q, U.ctext(fb, fn, acc['id'])))
                     continue   # element of an element: block tiling rule (F1)
                 key = '%s#%s[%s]' % (fn.q, U.ctext(fb, fn, cont), U.ctext(fb, fn, idx))
                 w, why = U.unproven_access_path(fb, fn, acc, cont, idx)
